@@ -6,7 +6,10 @@
    Node.update_state (Source, Sink, Splitter, Combiner) the totals add up to the time elapsed
    since the first update.  Exact (integer / rational) arithmetic; float rounding is outside. *)
 From Coq Require Import List ZArith Bool Arith.
-From FV Require Import SrcFragments Accounting TieAcc.
+From RecordUpdate Require Import RecordUpdate.
+From FV Require Import Kernel SrcFragments Accounting TieAcc World Factory.
+From FV Require FactoryInv FactoryAcct.
+From FV Require StoreB.
 Import ListNotations.
 Open Scope Z_scope.
 
@@ -43,3 +46,59 @@ Example C17_witness :
   let a := fold_left acc_step [(2, 1, 0); (5, 1, 1); (6, 0, 1); (9, 0, 0)] (acc_init 0) in
   a_idle a = 2 /\ a_oneproc a = 4 /\ a_allblk a = 3 /\ a_allproc a = 3 /\ a_oneblk a = 4.
 Proof. vm_compute. auto. Qed.
+
+(* ---- at every reachable world of every factory (theories/Factory/FactoryAcct.v) ----
+   PW T n0 k0 cA cB w: the clock shows T; node n0, of kind k0, has been stamped (last stamp l <= T), all its totals are
+   non-negative, and   sum of its totals = l + cA   (for a machine: each of the two documented state groups,
+   = l + cA and = l + cB); the processes owned by n0 are of a kind that fits k0, and its behaviour process is past
+   the program points that initialise the accounts.
+   Once this holds it holds for the rest of the run with the SAME constants: every advance of the stamp is charged to
+   exactly one state (one state of each group of a machine), nothing else ever touches the totals. *)
+Theorem C17_accounts_keep_pace_in_every_factory :
+  forall n0 k0 cA cB nodes edges order j m,
+    let wj := FactoryInv.iter_fstep j (mk_world nodes edges order) in
+    FactoryAcct.PW (wnow wj) n0 k0 cA cB wj ->
+    let w := FactoryInv.iter_fstep m wj in FactoryAcct.PW (wnow w) n0 k0 cA cB w.
+Proof. exact FactoryAcct.accounts_keep_pace_in_every_factory. Qed.
+Print Assumptions C17_accounts_keep_pace_in_every_factory.
+
+(* finalisation at T' charges T' - l once more: the totals add up to T' + cA (cA = minus the time of the first stamp) *)
+Theorem C17_finalised_node_sums :
+  forall T k0 cA cB nd nd' T',
+    FactoryAcct.AN T k0 cA cB nd -> k0 <> NMachine -> finalize_node T' nd = Some nd' -> sumz (ntstate nd') = T' + cA.
+Proof. exact FactoryAcct.finalize_node_sum. Qed.
+Print Assumptions C17_finalised_node_sums.
+
+Theorem C17_finalised_machine_groups :
+  forall T cA cB nd nd' T',
+    FactoryAcct.AN T NMachine cA cB nd -> finalize_node T' nd = Some nd' ->
+    FactoryAcct.gA (ntstate nd') = T' + cA /\ FactoryAcct.gB (ntstate nd') = T' + cB.
+Proof. exact FactoryAcct.finalize_machine_groups. Qed.
+Print Assumptions C17_finalised_machine_groups.
+
+(* the predicate is decidable on a concrete world, and a small line (source -> buffer -> 2-worker machine -> buffer ->
+   sink) satisfies it after 40 kernel steps with constants 0 for all three nodes: from then on, for EVERY further
+   number of steps, the totals of each node add up to its last stamp *)
+Theorem C17_check_sound :
+  forall T n0 k0 cA cB w, FactoryAcct.pw_check T n0 k0 cA cB w = true -> FactoryAcct.PW T n0 k0 cA cB w.
+Proof. exact FactoryAcct.pw_check_sound. Qed.
+Print Assumptions C17_check_sound.
+
+Definition wit_z6 : list Z := [0; 0; 0; 0; 0; 0].
+Definition wit_src : node := node0 <| nk := NSource |> <| nouts := [0%nat] |> <| nsetup := 1 |> <| ndelays := [2] |> <| ntstate := wit_z6 |>.
+Definition wit_mach : node :=
+  node0 <| nk := NMachine |> <| nins := [0%nat] |> <| nouts := [1%nat] |> <| nsetup := 1 |> <| ndelays := [3] |>
+        <| nwcap := 2%nat |> <| nres := res_init 2 |> <| ntstate := wit_z6 |> <| nocchist := [0; 0; 0] |>.
+Definition wit_snk : node := node0 <| nk := NSink |> <| nins := [1%nat] |> <| ntstate := wit_z6 |>.
+Definition wit_buf (s d : nat) : edge :=
+  edge0 <| est := StoreB.init StoreB.KBuffer StoreB.FIFO 2 |> <| esrc := s |> <| edst := d |> <| edelays := [1] |>.
+Definition wit_line : world :=
+  mk_world [wit_src; wit_mach; wit_snk] [wit_buf 0 1; wit_buf 1 2] [(true, 0%nat); (true, 1%nat); (true, 2%nat)].
+
+Example C17_pace_witness :
+  let wj := FactoryInv.iter_fstep 40 wit_line in
+  wcrash wj = None /\ wnow wj = 8 /\
+  FactoryAcct.pw_check 8 0 NSource 0 0 wj = true /\ FactoryAcct.pw_check 8 1 NMachine 0 0 wj = true /\
+  FactoryAcct.pw_check 8 2 NSink 0 0 wj = true /\
+  map ntstate (wnodes wj) = [[1; 6; 0; 0; 0; 0]; [1; 3; 3; 0; 3; 0]; [0; 0; 0; 0; 0; 0]].
+Proof. vm_compute. repeat split; reflexivity. Qed.
